@@ -203,6 +203,15 @@ def run_roundtrip(env, f, rec, r):
     rec.case(("rt",) + fields_key(f), sample=None if rec.evaluations > 3 else {"kind": "roundtrip", "fields": core.jsonable(f)})
     P = env.protocol
     env.set(f["compression"], f["max"], f["corr"], f["waitall"])
+    if r.random() < 0.3:
+        # the sending thread has just read somebody else's message (a pong, a reply, a request): reading is not writing - what it sends next
+        # is still described by its own settings only
+        foreign = wire.encode(r.choice([1, 4, 5, 6]), wire.F_CORR, 7, 2, b"pong", [], b"\xab" * 16)
+        try:
+            P.recv_stub(env.socketutil.SocketConnection(FragSock(foreign, [64], honour_waitall=True), keep_open=True))
+            rec.count("foreign_message_read_before_encoding")
+        except Exception:
+            pass
     payload = f["payload"]
     ann_size = sum(8 + len(v) for v in f["anns"].values())
     size_plain = len(payload) + ann_size
